@@ -84,7 +84,7 @@ func (Engine) Run(t *testing.T, job *simkit.Job, rng *simkit.RNG, idx int64, c *
 				if strings.Contains(msg, "deadlock") && strings.Contains(msg, "blocked goroutines remain") {
 					// goroutines of the code outlived the run: that is the leak
 					// the oracle has already judged (or a harness bug)
-					if !s.leakSeen {
+					if !s.leakSeen && len(s.found) == 0 {
 						s.harnessErr = "bubble ended with blocked goroutines the leak scan did not report: " + msg
 					}
 					return
@@ -354,7 +354,9 @@ func (s *sim) teardown() {
 		if g.ID == me || strings.Contains(g.Stack, "synctest.Run") || strings.Contains(g.Stack, "testingSynctestTest") {
 			continue
 		}
-		if !s.leakSeen && s.harnessErr == "" {
+		// (a run that has already shown a violation stops where it is; what the
+		// code, known to be wrong, leaves behind then is not the harness's trouble)
+		if !s.leakSeen && s.harnessErr == "" && len(s.found) == 0 {
 			s.harnessErr = "goroutine left at the end of the run that the leak scan did not report:\n" + g.Stack
 		}
 	}
